@@ -37,6 +37,7 @@ func vEqStr(a, b string) bool
 func vTry(f func()) bool
 func vNote(s string)
 func vUFBytes(name string, in []byte, outLen int) []byte
+func vSupportSweep(label string, e []byte, w int)
 `
 
 func APISymbolic(pkgName string) []byte {
@@ -197,6 +198,17 @@ func vTry(f func()) (panicked bool) {
 	return false
 }
 func vNote(s string) {}
+func vSupportSweep(label string, e []byte, w int) {
+	nz := 0
+	for _, x := range e {
+		if x != 0 {
+			nz++
+		}
+	}
+	if nz >= 1 && nz <= w {
+		vFailed = append(vFailed, label)
+	}
+}
 func vUFBytes(name string, in []byte, outLen int) []byte {
 	// natively an arbitrary but deterministic function
 	out := make([]byte, outLen)
